@@ -1,7 +1,7 @@
 """C10: register streaming: ordered, exactly-once, abort on error, stop on cancellation."""
 from lib import apirun
 
-THEOREMS = ["C10_stream", "C10_plan", "C10_no_handler_no_io", "C10_io_only_for_read_registers"]
+THEOREMS = ["C10_stream", "C10_plan", "C10_no_handler_no_io", "C10_io_only_for_read_registers", "C10_maps"]
 
 
 def run(res, args):
